@@ -599,7 +599,7 @@ func exhaustive(w *W, r *rng.R, thorough bool) {
 			// sampled only: 2^27 automata
 			cnt := 600
 			if thorough {
-				cnt = 40000
+				cnt = 20000
 			}
 			for i := 0; i < cnt; i++ {
 				a := nfaByCode(3, r.Intn(3), r.Intn(8), r.Intn(total))
@@ -1034,7 +1034,7 @@ func main() {
 	case "random":
 		n := 1200
 		if thorough {
-			n = 40000
+			n = 25000
 		}
 		random(w, rng.FromEnv(132), n)
 	case "shapes":
